@@ -92,6 +92,32 @@ out.append("|---|---|---|---|")
 for rnd in (1, 2, 3):
     n = sum(cnt[(rnd, "now", k)] for k in ("caught", "weak", "missed"))
     out.append(f"| {rnd} | {n} | {cnt[(rnd,'first','caught')]} / {cnt[(rnd,'first','weak')]} / {cnt[(rnd,'first','missed')]} | {cnt[(rnd,'now','caught')]} / {cnt[(rnd,'now','weak')]} / {cnt[(rnd,'now','missed')]} |")
+mxp = os.path.join(VERIF, "seeded", "MATRIX.json")
+if os.path.exists(mxp):
+    mx = json.load(open(mxp))
+    out.append("")
+    out.append("### 13.3b Cross matrix: every seeded change against every check (`harness/tools/matrix.py`, quick tier, correspondence + specification part; from `seeded/MATRIX.json`)\n")
+    out.append("A change seeded for one property often breaks others too (a regression in a shared helper is a regression of every property that rests on it); a check that stays quiet is not a miss unless the change breaks *its* property. `w` = reported only as `no-failing-input-found`.\n")
+    out.append("| seeded change | own check | other checks that report it |")
+    out.append("|---|---|---|")
+    tot = collections.Counter()
+    for sid in sorted(mx):
+        row = mx[sid]
+        if "_error" in row:
+            out.append(f"| {sid} | — | ({row['_error']}) |")
+            continue
+        own = sid.split("-")[0]
+        def mark(c):
+            r = row.get(c, {})
+            return "" if r.get("exit") != 1 else ("w" if r.get("weak") else "x")
+        others = [f"{c}{'(w)' if mark(c) == 'w' else ''}" for c in sorted(row) if c != own and mark(c)]
+        for c in sorted(row):
+            if mark(c):
+                tot[c] += 1
+        o = mark(own)
+        out.append(f"| {sid} | {'caught' if o == 'x' else ('weak' if o == 'w' else 'quiet')} | {', '.join(others) or '—'} |")
+    out.append("")
+    out.append("Seeded changes reported per check (own and foreign): " + ", ".join(f"{c} {n}" for c, n in sorted(tot.items())) + ".")
 text = "\n".join(out) + "\n"
 
 dp = os.path.join(VERIF, "DESIGN.md")
